@@ -1553,6 +1553,33 @@ func (ex *Exec) verifyFunc(fi *FuncInfo) {
 	fr.onReturn = func(st *State, vals []Val) { ex.checkPost(st, fi, c, vals) }
 	fr.onPanic = func(st *State) { ex.checkPanic(st, fi, c) }
 	ex.block(st, fi.Decl.Body.List, func(st *State) { ex.doReturn(st, nil) })
+	// a function whose postcondition of layer L is trusted is not verified for that layer at all:
+	// the layer's obligations inside its body are dropped and this is reported
+	trustedLayer := map[string]bool{}
+	for _, e := range c.Ensures {
+		if e.Trusted {
+			for _, p := range e.Props {
+				trustedLayer[p] = true
+			}
+		}
+	}
+	if len(trustedLayer) > 0 {
+		var keep []*Obligation
+		for _, o := range ex.obls {
+			drop := len(o.Props) > 0
+			for _, p := range o.Props {
+				if !trustedLayer[p] {
+					drop = false
+				}
+			}
+			if drop && !o.Vacuity {
+				ex.w.assumed["body of "+fi.FullName()+" not verified for layer "+strings.Join(o.Props, ",")+" (its postcondition for that layer is trusted)"] = true
+				continue
+			}
+			keep = append(keep, o)
+		}
+		ex.obls = keep
+	}
 }
 
 func (ex *Exec) checkPost(st *State, fi *FuncInfo, c *Contract, vals []Val) {
